@@ -22,6 +22,10 @@ R17.6   history independence of resolution and sizing:
         into / mutate in place an object which outlives the call (a stored
         entry, a container inside the per-call config, the config shared by
         the pilots of one bulk)
+R17.7   `Session.get_resource_config`: the key of the `<cfg>['schemas'][key]`
+        read that is merged (what R17.1 mirrors for every resource x schema
+        pair) is the schema parameter as passed; only a request without a
+        schema falls back, and then to the entry's `default_schema`
 
 Nothing of /repo is imported or executed: JSON files are read as text, the
 python sources through the program model.
@@ -381,10 +385,13 @@ class MergeModel:
             if self.svar and isinstance(v.slice, ast.Name) and \
                     v.slice.id == self.svar:
                 return 'alias'
+            if not any(v is x for x in self.lookups):
+                self.lookups.append(v)
             return 'direct'
 
         ok = False
         self.alias = False
+        self.lookups = []       # the <schemas>[<key>] reads which are merged
         if self.svar is None:
             if schema_lookup(b) != 'direct':
                 raise AnalysisError('UNRECOGNISED-IDIOM %s: merged operand '
@@ -780,6 +787,7 @@ def build_ctx(prog, rep):
         if base.startswith('agent_'):
             c.agent_cfgs[base[len('agent_'):-len('.json')]] = rel
     c.used_agent_cfgs = {}      # agent cfg name -> {'exec': set, 'sched': set}
+    c.nondefault = []           # (resource, schema, default schema) pairs
     return c
 
 
@@ -1045,6 +1053,10 @@ def r17_1(prog, rep, ctx, rid='R17.1'):
             if isinstance(entry, dict) and isinstance(entry.get('schemas'),
                                                       dict):
                 n_pairs += len(entry['schemas'])
+                for sname in sorted(entry['schemas']):
+                    if sname != entry.get('default_schema'):
+                        ctx.nondefault.append(('%s.%s' % (site, label), sname,
+                                               entry.get('default_schema')))
     rep.stat('resource_entries', n_res)
     rep.stat('resource_x_schema', n_pairs)
     if n_res < 1:
@@ -3919,11 +3931,240 @@ def r17_6(prog, rep, tier, rid='R17.6'):
 
 
 # ------------------------------------------------------------------------------
+# R17.7   the schema which is merged is the schema which was requested
+#
+class _KeySrc:
+    """one possible origin of the key of the schema lookup
+      kind    : 'param'   the schema parameter as passed by the caller
+                'default' a read of `default_schema` of some config
+                'const'   a literal
+                'field'   a read of another config key / attribute
+                'name'    another parameter or a free name
+                'opaque'  anything else (not decided)
+      falsy   : this origin is used only when the schema parameter is falsy"""
+
+    def __init__(self, kind, node, falsy):
+        self.kind, self.node, self.falsy = kind, node, falsy
+
+
+def _cfg_field(e):
+    """key of a read  X['k'] / X.k / X.get('k'[, d]); None if e is none"""
+    if isinstance(e, ast.Subscript) and isinstance(e.slice, ast.Constant) \
+            and isinstance(e.slice.value, str):
+        return e.slice.value
+    if isinstance(e, ast.Attribute) and isinstance(e.ctx, ast.Load):
+        return e.attr
+    if isinstance(e, ast.Call) and isinstance(e.func, ast.Attribute) and \
+            e.func.attr == 'get' and e.args and \
+            isinstance(e.args[0], ast.Constant) and \
+            isinstance(e.args[0].value, str) and not e.keywords and (
+            len(e.args) == 1 or len(e.args) == 2 and
+            isinstance(e.args[1], ast.Constant) and not e.args[1].value):
+        return e.args[0].value
+    return None
+
+
+class _KeyOrigin:
+    """where the value of an expression comes from, followed through plain
+    local copies, `a or b`, conditional expressions and guarded re-bindings
+    of one function (reaching definitions on its CFG)"""
+
+    def __init__(self, f, param):
+        self.f, self.P = f, param
+        self.g = cfg_of(f)
+        self.rd = ReachingDefs(self.g)
+        a = f.node.args
+        self.params = {x.arg for x in a.posonlyargs + a.args + a.kwonlyargs}
+        for x in (a.vararg, a.kwarg):
+            if x is not None:
+                self.params.add(x.arg)
+        self.smap = I.stmt_node_map(self.g)
+        self.deps = Deps(f.node, implicit=False)
+
+    def _other(self, e, node, falsy):
+        """an expression this analysis cannot follow: surely not the request
+        if it does not depend on the schema parameter at all"""
+        if e is not None and self.P not in self.deps.expr_depends(e):
+            return _KeySrc('name', node, falsy)
+        return _KeySrc('opaque', node, falsy)
+
+    def _param_reaches(self, name, nid):
+        if name not in self.params:
+            return False
+        # the entry of nid is reached from the function entry without passing
+        # a re-binding of the name (nid itself may be one: `p = p or ..`)
+        others = self.rd.by_name.get(name, set())
+        inner = self.g.reachable(self.g.entry.id, skip_nodes=others)
+        return nid in inner or any(e.src in inner for e in self.g.pred[nid])
+
+    def _is_request(self, e, nid, depth):
+        """e holds, at nid, the schema parameter as passed (nothing else)"""
+        if not isinstance(e, ast.Name):
+            return False
+        src = self.sources(e, nid, False, depth + 1)
+        return bool(src) and all(x.kind == 'param' and not x.falsy
+                                 for x in src)
+
+    def _falsy_atom(self, t, nid, depth):
+        """edge label of test atom t on which the request is known to be
+        falsy, or None"""
+        if self._is_request(t, nid, depth):
+            return 'F'
+        if isinstance(t, ast.Compare) and len(t.ops) == 1 and \
+                isinstance(t.comparators[0], ast.Constant) and \
+                not t.comparators[0].value and \
+                self._is_request(t.left, nid, depth):
+            if isinstance(t.ops[0], (ast.Is, ast.Eq)):
+                return 'T'
+            if isinstance(t.ops[0], (ast.IsNot, ast.NotEq)):
+                return 'F'
+        return None
+
+    def _guarded_falsy(self, nid, depth):
+        for t, lab in guards(self.g, nid):
+            if self._falsy_atom(self.g.nodes[t].ast, t, depth) == lab:
+                return True
+        return False
+
+    def _truth(self, test, nid, depth):
+        """'T' / 'F': value of the boolean test when the request is falsy"""
+        neg = False
+        while isinstance(test, ast.UnaryOp) and isinstance(test.op, ast.Not):
+            neg, test = not neg, test.operand
+        lab = self._falsy_atom(test, nid, depth)
+        if lab is None:
+            return None
+        if neg:
+            lab = 'F' if lab == 'T' else 'T'
+        return lab
+
+    def sources(self, e, nid, falsy=False, depth=0):
+        if depth > 12:
+            return [_KeySrc('opaque', e, falsy)]
+        if isinstance(e, ast.Constant):
+            return [_KeySrc('const', e, falsy)]
+        if isinstance(e, ast.BoolOp) and isinstance(e.op, ast.Or):
+            out, fz = [], falsy
+            for v in e.values:
+                out += self.sources(v, nid, fz, depth + 1)
+                fz = fz or self._is_request(v, nid, depth)
+            return out
+        if isinstance(e, ast.IfExp):
+            lab = self._truth(e.test, nid, depth)
+            return self.sources(e.body, nid, falsy or lab == 'T', depth + 1) \
+                + self.sources(e.orelse, nid, falsy or lab == 'F', depth + 1)
+        if isinstance(e, ast.Name):
+            out = []
+            if self._param_reaches(e.id, nid):
+                out.append(_KeySrc('param' if e.id == self.P else 'name', e,
+                                   falsy))
+            defs = self.rd.reaching(nid, e.id)
+            if not defs and not out:
+                return [_KeySrc('name', e, falsy)]
+            for d in sorted(defs):
+                n = self.g.nodes[d]
+                a = n.ast
+                if n.kind == 'stmt' and isinstance(a, ast.Assign) and \
+                        len(a.targets) == 1 and \
+                        isinstance(a.targets[0], ast.Name):
+                    out += self.sources(
+                        a.value, d, falsy or self._guarded_falsy(d, depth),
+                        depth + 1)
+                else:
+                    v = a.iter if n.kind == 'for' else \
+                        getattr(a, 'value', None) if n.kind == 'stmt' and \
+                        isinstance(a, ast.Assign) else None
+                    out.append(self._other(v, a, falsy))
+            return out
+        k = _cfg_field(e)
+        if k is not None:
+            return [_KeySrc('default' if k == 'default_schema' else 'field',
+                            e, falsy)]
+        return [self._other(e, e, falsy)]
+
+
+def r17_7(prog, rep, ctx, rid='R17.7'):
+    rep.rule(rid, "Session.get_resource_config: the key of the "
+             "<cfg>['schemas'][<key>] read which is merged into the config "
+             "is the schema the caller asked for; only a request without a "
+             "schema falls back, and then to the entry's default_schema",
+             minimum=1)
+    mm = ctx.merge
+    f = mm.func
+    pos = [x.arg for x in f.node.args.posonlyargs + f.node.args.args]
+    if len(pos) < 3:
+        raise AnalysisError('UNRECOGNISED-IDIOM %s: callers pass (resource, '
+                            'schema), the signature has no such parameter'
+                            % f.where)
+    P = pos[2]
+    if not mm.lookups:
+        raise AnalysisError("UNRECOGNISED-IDIOM %s: no <cfg>['schemas'][<key>]"
+                            ' read found' % f.where)
+    ko = _KeyOrigin(f, P)
+    nd = ctx.nondefault
+    ex = nd[0] if nd else ('<resource>', '<schema>', '<default>')
+    for v in mm.lookups:
+        n = ko.smap.get(id(v))
+        if n is None:
+            raise AnalysisError('UNRECOGNISED-IDIOM %s: `%s` is not part of a '
+                                'simple statement' % (f.where, short(v)))
+        src = ko.sources(v.slice, n.id)
+        opaque = [x for x in src if x.kind == 'opaque']
+        if opaque:
+            raise AnalysisError('UNRECOGNISED-IDIOM %s: cannot tell where the '
+                                'key of `%s` comes from (`%s`)'
+                                % (f.where, short(v), short(opaque[0].node)))
+        loc = f.loc(v)
+        wrong = [x for x in src if x.kind in ('const', 'field', 'name') or
+                 x.kind == 'default' and not x.falsy]
+        asked = [x for x in src if x.kind == 'param' and not x.falsy]
+        hard = [x for x in wrong if x.falsy]
+        if wrong and not (hard and len(hard) == len(wrong) and asked):
+            w = [x for x in wrong if not x.falsy][0] if asked else wrong[0]
+            rep.bad(rid, f, 'schema-key',
+                    '%s merges `%s`: the key is `%s`%s, not the schema the '
+                    'caller asked for (parameter `%s`) - the existence check '
+                    'and verify() still pass, but the endpoints and settings '
+                    'merged are those of another schema; %d of the shipped '
+                    'resource x schema pairs name a non-default schema'
+                    % (f.qual, short(v), short(w.node),
+                       ' also when a schema is requested' if asked else '',
+                       P, len(nd)), loc,
+                    history='PilotDescription(resource=%r, access_schema=%r): '
+                    'get_resource_config(%r, %r) returns the job manager / '
+                    'file system endpoints of schema %r'
+                    % (ex[0], ex[1], ex[0], ex[1], ex[2]))
+        elif not asked:
+            rep.bad(rid, f, 'schema-key',
+                    '%s merges `%s`: the requested schema (parameter `%s`) '
+                    'never reaches the key' % (f.qual, short(v), P), loc,
+                    history='PilotDescription(resource=%r, access_schema=%r) '
+                    'is resolved like a request without access_schema'
+                    % (ex[0], ex[1]))
+        elif hard:
+            rep.bad(rid, f, 'schema-default',
+                    '%s: a request without schema merges `%s`, not the '
+                    "entry's default_schema" % (f.qual, short(hard[0].node)),
+                    loc,
+                    history='PilotDescription(resource=R) without '
+                    'access_schema on a platform whose default_schema is not '
+                    '%s: endpoints of the wrong schema (or "schema unknown")'
+                    % short(hard[0].node))
+        else:
+            rep.ok(rid, f, 'the key of `%s` is the requested schema `%s`%s'
+                   % (short(v), P, ", or the entry's default_schema when none "
+                      'is requested' if any(x.kind == 'default' for x in src)
+                      else ''), loc)
+
+
+# ------------------------------------------------------------------------------
 #
 def run(prog, rep, tier):
     rep.decided = ('every entry of every shipped resource_*.json, under each '
         'of its schemas and after the merge + typed verification that '
-        'Session.get_resource_config performs (both mirrored from the AST), '
+        'Session.get_resource_config performs (both mirrored from the AST; '
+        'the schema it merges is the one requested, a request without '
+        "schema falls back to the entry's default_schema), "
         'names a resource manager, launch methods, launch order, agent '
         'scheduler (after the JSRUN switch), executor and agent config that '
         'exist (factory tables extracted from the dict literals and local '
@@ -3980,6 +4221,7 @@ def run(prog, rep, tier):
     r17_4(prog, rep)
     r17_5(prog, rep)
     r17_6(prog, rep, tier)
+    r17_7(prog, rep, ctx)
     if tier == 'thorough':
         # sweep: every factory in the package which selects a class through a
         # dict literal (stagers, tmgr schedulers, ...) has resolvable rows
@@ -4015,6 +4257,11 @@ _CMP  = 'utils/component.py'
 _SES  = 'session.py'
 _RCF  = 'resource_config.py'
 _PML  = 'pmgr/launching/base.py'
+
+# R17.7: the merged lookup and the defaulting of Session.get_resource_config
+_LK = "        scfg = rcfg['schemas'][schema]\n"
+_DF = ("        if not schema:\n"
+       "            schema = self._rcfgs[site][res]['default_schema']\n")
 
 # the block of _prepare_pilot which derives the node count from cores / GPUs
 _BLK = ("            if avail_cores_per_node:\n"
@@ -4203,6 +4450,21 @@ MUTATIONS = [
         (_SES, "            return ResourceConfig(from_dict=from_dict)", "            return from_dict")]),
     dict(name='R17.6 label stored into the entry after the copy was taken', rules=('R17.6',), edits=[
         (_SES, "            from_dict.label = resource\n            return ResourceConfig(from_dict=from_dict)", "            rcfg = ResourceConfig(from_dict=from_dict)\n            from_dict.label = resource\n            return rcfg")]),
+    # ---- R17.7: the schema merged is the schema requested --------------------
+    dict(name="R17.7 (C17-g3) merged schema selected by the entry's default_schema instead of the requested one", rules=('R17.7',), edits=[
+        (_SES, _LK, "        scfg = rcfg['schemas'][rcfg['default_schema']]\n")]),
+    dict(name='R17.7 same mistake through a local and attribute access', rules=('R17.7',), edits=[
+        (_SES, _LK, "        wanted = rcfg.default_schema\n        scfg = rcfg['schemas'][wanted]\n")]),
+    dict(name='R17.7 merged schema is a literal', rules=('R17.7',), edits=[
+        (_SES, _LK, "        scfg = rcfg['schemas']['local']\n")]),
+    dict(name='R17.7 defaulting guard inverted: a requested schema is replaced by the default', rules=('R17.7',), edits=[
+        (_SES, _DF, "        if schema:\n            schema = self._rcfgs[site][res]['default_schema']\n")]),
+    dict(name='R17.7 defaulting unconditional', rules=('R17.7',), edits=[
+        (_SES, _DF, "        schema = self._rcfgs[site][res]['default_schema']\n")]),
+    dict(name='R17.7 request without schema falls back to a hard wired schema', rules=('R17.7',), edits=[
+        (_SES, _DF, "        if not schema:\n            schema = 'local'\n")]),
+    dict(name='R17.7 merged schema keyed by the resource label', rules=('R17.7',), edits=[
+        (_SES, _LK, "        scfg = rcfg['schemas'][res]\n")]),
 ]
 
 SILENT = [
@@ -4379,4 +4641,21 @@ SILENT = [
                "    def _expand_cfg(self, cfg, values):\n\n        for key in cfg:\n            if not isinstance(cfg[key], str):\n                continue\n            cfg[key] = cfg[key] % values\n\n\n"
                "    # --------------------------------------------------------------------------\n    #\n"
                "    def _prepare_pilot(self, resource, rcfg, pilot, expand, tar_name):\n")]),
+    # ---- R17.7 ---------------------------------------------------------------
+    dict(name='R17.7 requested schema copied into a renamed local, schemas dict hoisted', edits=[
+        (_SES, _LK, "        wanted  = schema\n        choices = rcfg['schemas']\n        scfg = choices[wanted]\n")]),
+    dict(name='R17.7 defaulting as a conditional expression on a hoisted default', edits=[
+        (_SES, _DF, "        fallback = self._rcfgs[site][res]['default_schema']\n        schema = schema if schema else fallback\n")]),
+    dict(name='R17.7 defaulting as `requested or default` into a new local used for check and merge', edits=[
+        (_SES, _DF, "        requested = schema\n        schema = requested or self._rcfgs[site][res].default_schema\n")]),
+    dict(name='R17.7 defaulting in if / else form binding a new name', edits=[
+        (_SES, _DF, "        if schema:\n            key = schema\n        else:\n            key = self._rcfgs[site][res]['default_schema']\n        schema = key\n")]),
+    dict(name='R17.7 defaulting extracted into a private helper', edits=[
+        (_SES, _DF, "        schema = self._effective_schema(site, res, schema)\n"),
+        (_SES, "    def get_resource_config(self, resource, schema=None):\n",
+               "    def _effective_schema(self, site, res, schema):\n\n        if schema:\n            return schema\n\n        return self._rcfgs[site][res]['default_schema']\n\n\n"
+               "    # --------------------------------------------------------------------------\n    #\n"
+               "    def get_resource_config(self, resource, schema=None):\n")]),
+    dict(name='R17.7 merged operand read inline, keyword call', edits=[
+        (_SES, _LK + "\n        ru.dict_merge(rcfg, scfg, ru.OVERWRITE)", "        ru.dict_merge(rcfg, rcfg.schemas[schema], policy=ru.OVERWRITE)")]),
 ]
